@@ -22,7 +22,9 @@ func init() { Registry["C17"] = C17 }
 const c17Mod = "example.com/c17-mod.z"
 
 // package name -> directory below the module root
-var c17Dirs = map[string]string{"good": "good", "goodffi": "goodffi", "partial": "partial", "allbad": "allbad", "tagged": "tagged", "nested": "sub.d/p-q", "latebad": "latebad", "earlybad": "earlybad", "cgotag": "cgotag", "nofiles": "nofiles", "missing": "no-such-dir"}
+var c17Dirs = map[string]string{"good": "good", "goodffi": "goodffi", "partial": "partial", "allbad": "allbad", "tagged": "tagged", "nested": "sub.d/p-q", "latebad": "latebad", "earlybad": "earlybad", "cgotag": "cgotag", "nofiles": "nofiles", "missing": "no-such-dir",
+	// two packages with the same Go package NAME (util) in different directories
+	"twin1": "twins/x/util", "twin2": "twins/y/util"}
 
 func c17Sources(pkg string, ver int) map[string]string {
 	switch pkg {
@@ -54,6 +56,10 @@ func c17Sources(pkg string, ver int) map[string]string {
 			"a_first.go": "package earlybad\n\nfunc Ok1() uint64 {\n\treturn 1\n}\n\nfunc Bad(x uint64) uint64 {\n\tdefer func() {}()\n\treturn x\n}\n",
 			"m_mid.go":   "package earlybad\n\nfunc Ok2() uint64 {\n\treturn Ok1() + 2\n}\n",
 			"z_last.go":  "package earlybad\n\nfunc Ok3() uint64 {\n\treturn Ok2() + 3\n}\n"}
+	case "twin1":
+		return map[string]string{"u.go": "package util\n\nfunc Which() uint64 {\n\treturn 1\n}\n"}
+	case "twin2":
+		return map[string]string{"u.go": "package util\n\nfunc Which() uint64 {\n\treturn 2\n}\n\nfunc Other() uint64 {\n\treturn Which() + 1\n}\n"}
 	case "nofiles":
 		// every file is excluded by the goose build tag: the Go toolchain reports "build constraints exclude all Go files"
 		return map[string]string{"x.go": "//go:build !goose\n\npackage nofiles\n\nfunc F() uint64 {\n\treturn 1\n}\n"}
@@ -355,6 +361,47 @@ func C17(c *ev.Ctx) {
 		}
 		_ = os.RemoveAll(out)
 		_ = os.RemoveAll(many)
+	}
+	// a module with vendored dependencies: the Go toolchain reads them from vendor/ (they are nowhere else), and so must
+	// the translator, with the environment's GOFLAGS left alone
+	{
+		vend := filepath.Join(c.Scratch, "c17vend")
+		_ = os.RemoveAll(vend)
+		_ = os.MkdirAll(filepath.Join(vend, "app"), 0755)
+		_ = os.MkdirAll(filepath.Join(vend, "vendor", "vendored.example", "dep"), 0755)
+		_ = os.WriteFile(filepath.Join(vend, "go.mod"), []byte("module example.com/vend17\n\ngo 1.22\n\nrequire vendored.example/dep v1.0.0\n"), 0644)
+		_ = os.WriteFile(filepath.Join(vend, "vendor", "modules.txt"), []byte("# vendored.example/dep v1.0.0\n## explicit; go 1.22\nvendored.example/dep\n"), 0644)
+		_ = os.WriteFile(filepath.Join(vend, "vendor", "vendored.example", "dep", "d.go"), []byte("package dep\n\nfunc Seven() uint64 {\n\treturn 7\n}\n"), 0644)
+		_ = os.WriteFile(filepath.Join(vend, "app", "a.go"), []byte("package app\n\nimport \"vendored.example/dep\"\n\nfunc Use() uint64 {\n\treturn dep.Seven() + 1\n}\n"), 0644)
+		var env []string
+		for _, kv := range goEnv() {
+			if !strings.HasPrefix(kv, "GOFLAGS=") {
+				env = append(env, kv)
+			}
+		}
+		env = append(env, "GOFLAGS=")
+		lst := exec.Command("go", "list", "-tags", "goose", "./app")
+		lst.Dir, lst.Env = vend, env
+		if lo, lerr := lst.CombinedOutput(); lerr != nil {
+			c.Set("vendored_module", "go list does not accept the module here: "+firstLines(string(lo), 2))
+		} else {
+			out := filepath.Join(c.Scratch, "c17vendout")
+			_ = os.RemoveAll(out)
+			cmd := exec.Command(goose, "-out", out, "-dir", vend, "./app")
+			cmd.Dir, cmd.Env = vend, env
+			b, err := cmd.CombinedOutput()
+			got := listTree(out)
+			mod1, _ := os.ReadFile(filepath.Join(vend, "go.mod"))
+			if err != nil || got != "example_com/vend17/app.v" {
+				c.Violation("c17.vendored-module", fmt.Sprintf("module with a vendor directory (go list -tags goose ./app succeeds): goose ./app fails or writes something else (err %v, files %q): the patterns do not select the sources the Go toolchain selects\n%s", err, got, firstLines(string(b), 6)), nil)
+			} else if !strings.Contains(string(mod1), "vendored.example/dep v1.0.0") {
+				c.Violation("c17.vendored-module", "goose rewrote the go.mod of the module it translates", nil)
+			} else {
+				c.Set("vendored_module", "translated from vendor/")
+			}
+			_ = os.RemoveAll(out)
+		}
+		_ = os.RemoveAll(vend)
 	}
 	// import paths of one element: the root package of a module whose path has no slash, and its sub-package
 	{
